@@ -151,9 +151,13 @@ def oracle_csv(case, rec):
         for source in ('csv-raw', 'ob-csv'):
             args = stubs.make_args(data_source=source)
             for term in ('\n', ''):
-                got = cu.generic_line_parser(line + term, ',', args, None, header)
-                if got != cells:
-                    raise Violation(f'{source}: line {line + term!r} parsed to {got!r}, fields are {cells!r}')
+                # callers hand over the delimiter they happen to hold (the streaming loop defaults to a tab, instance ranking
+                # hard-codes one): a CSV line is comma-separated whatever that argument says
+                for delim in (',', '\t', None):
+                    got = cu.generic_line_parser(line + term, delim, args, None, header)
+                    if got != cells:
+                        raise Violation(f'{source}: line {line + term!r} (delimiter argument {delim!r}) parsed to {got!r}, '
+                                        f'fields are {cells!r}')
     rec.nt(nt, key=['csv', case['rows'], case['quote_all']])
     rec.cls('quote-all' if case['quote_all'] else 'quote-minimal')
     _row_classes(rec, case['rows'], ',')
